@@ -19,8 +19,8 @@ Definition w_ifexp := one (SAssign (TName (VU 1))
 (* v1 = (f0() + (v3 and f1()))      the BoolOp is evaluated before f0() *)
 Definition w_boolop := one (SAssign (TName (VU 1))
    (EBin BAdd (call0 0) (EBool BoAnd (v 3) (call0 1)))).
-(* if (v0 < f0() < v2): v1 = 1     the middle operand is evaluated twice *)
-Definition w_chain := one (SIf (ECmp (v 0) (CMore CLt (call0 0) (CLast CLt (i 9))))
+(* if ((-5) < f0() < 9): v1 = 1     the middle operand is evaluated twice *)
+Definition w_chain := one (SIf (ECmp (EUnary UNeg (i 5)) (CMore CLt (call0 0) (CLast CLt (i 9))))
    (one (SAssign (TName (VU 1)) (i 1))) SNil).
 (* v1 = (v2 and 3)                  Python yields 3, the builder's CFG yields True *)
 Definition w_boolval := one (SAssign (TName (VU 1)) (EBool BoAnd (v 2) (i 3))).
